@@ -13,6 +13,7 @@ import Driver.C14
 import Driver.C15
 import Driver.C18
 import Driver.C19
+import Driver.C04
 
 def main (args : List String) : IO UInt32 := do
   let stdin ← IO.getStdin
@@ -33,4 +34,5 @@ def main (args : List String) : IO UInt32 := do
   | ["c15", page] => Driver.lineLoop stdin stdout (page.toNat?.getD 4096) Driver.C15.step; return 0
   | ["c18"] => Driver.lineLoop stdin stdout () Driver.C18.step; return 0
   | ["c19"] => Driver.lineLoop stdin stdout (⟨[]⟩ : Zix.Lock.Table) Driver.C19.step; return 0
+  | ["c04"] => Driver.lineLoop stdin stdout () Driver.C04.step; return 0
   | _ => IO.eprintln "usage: zixdriver <component> < script"; return 2
